@@ -524,12 +524,16 @@ def shrink(case):
 CASES_HEADER = """From Coq Require Import QArith ZArith List Bool.
 Require Import SkV.Lib.Base SkV.C14.Model SkV.C14.Cases.
 Import ListNotations.
-Open Scope Q_scope.
+Open Scope Z_scope.
 """
 
 
+def _cq(x):
+    return cq(x) + "%Q"
+
+
 def _cser(s):
-    return clist([cq(x) for x in s])
+    return clist([_cq(x) for x in s])
 
 
 def _cpanel(p):
@@ -562,7 +566,7 @@ def coq_case(case, out):
     o = _cout(out)
     X = _cpanel(case["X"]) if "X" in case else None
     if k == "pad":
-        return "CPad %s %s %s %s %s" % (copt(case["pad_length"], cnat), cq(case["fill"]),
+        return "CPad %s %s %s %s %s" % (copt(case["pad_length"], cnat), _cq(case["fill"]),
                                        _cfit(case), X, o)
     if k == "trunc":
         return "CTrunc %s %s %s %s %s" % (copt(case["lower"], cnat), copt(case["upper"], cnat),
